@@ -84,13 +84,23 @@ func (e *Exec) materialise1(name string, t types.Type) Value {
 		}
 		if w, _ := width(t); w > 0 {
 			e.declareInput(q, fmt.Sprintf("(_ BitVec %d)", w))
+			if strings.HasSuffix(name, ".(*rsa.PublicKey).*.E") {
+				// P3: ... nor a public exponent that is not positive
+				e.assume(fmt.Sprintf("(bvsgt %s (_ bv0 %d))", q, w))
+			}
 			return &BV{T: q, W: w}
 		}
 		e.unsupported("lazy value of type %s", t.String())
 	case *types.Struct:
 		s := &StructV{F: make([]Value, u.NumFields())}
 		for i := 0; i < u.NumFields(); i++ {
-			s.F[i] = &LazyV{Name: name + "." + u.Field(i).Name(), T: u.Field(i).Type()}
+			fn := u.Field(i).Name()
+			if !u.Field(i).Exported() && (fn == "parsedDNSNames" || fn == "parsedCommonName") && strings.HasSuffix(nt, "x509.Certificate") {
+				// zcrypto's parse caches are empty in a freshly parsed certificate
+				s.F[i] = e.zero(u.Field(i).Type())
+				continue
+			}
+			s.F[i] = &LazyV{Name: name + "." + fn, T: u.Field(i).Type()}
 		}
 		return s
 	case *types.Array:
@@ -106,6 +116,10 @@ func (e *Exec) materialise1(name string, t types.Type) Value {
 			return &PtrV{}
 		case "math/big.Int":
 			e.declareInput(q, "Int")
+			if strings.HasSuffix(name, ".(*rsa.PublicKey).*.N") {
+				// P3: the parser rejects RSA keys whose modulus is not positive (zcrypto x509.go parsePublicKey)
+				e.assume("(> " + q + " 0)")
+			}
 			o := e.newObj(&BigV{T: q}, name)
 			o.Tag = "lazy:" + name
 			return &PtrV{O: o}
@@ -150,6 +164,9 @@ func (e *Exec) materialise1(name string, t types.Type) Value {
 		return &MapV{M: m}
 	case *types.Interface:
 		cands, ok := e.ifaceCandidates(ifaceKey(name))
+		if !ok {
+			cands, ok = e.ifaceCandidatesByType(t)
+		}
 		if !ok {
 			e.unsupported("lazy interface value %s (%s) without candidate types", name, t.String())
 		}
@@ -225,6 +242,13 @@ func (e *Exec) symTime(name string) Value {
 
 // lazySliceInvariants adds parser invariants tied to specific slice types.
 func (e *Exec) lazySliceInvariants(name string, t types.Type, sl *SliceV) {
+	if i := strings.Index(name, "."); i >= 0 {
+		rest := name[i:]
+		if (strings.HasPrefix(rest, ".Subject.") || strings.HasPrefix(rest, ".Issuer.")) && strings.Count(rest, ".") == 2 && !strings.Contains(rest, "[") {
+			// P7: the attribute lists of a parsed pkix.Name are built with append (FillFromRDNSequence): never non-nil and empty
+			e.assume(fmt.Sprintf("(= %s (= %s (_ bv0 64)))", sl.NilSym, sl.Len.T))
+		}
+	}
 	switch namedOf(t) {
 	case "net.IP":
 		// P5: parsed IP addresses have 4 or 16 bytes
